@@ -215,6 +215,7 @@ func init() {
 		// round 9: the width a member is encoded with is the width of the type written for it - the routines that turn a declaration
 		// into a field map a written type to the same attribute (one of them consulting the MetaData table by the member's *name*
 		// gives `u64 Price` the width of an unrelated entry called Price)
+		metadataByTypeNotByName(w, r, "C01")
 		r.refile("C08/type-mapping-siblings", "C01/type-mapping-siblings", func(sr *Report) { c08TypeMappingSiblings(w, sr) }, nil)
 		wireFieldOrderEmission(wc, r, "C01", map[string]bool{"enc": true})
 		fieldTextIndependentOfSiblings(w, r, "C01")
@@ -282,6 +283,7 @@ func init() {
 		sizeSumHonoursRepeat(w, r, "C04")
 		declarationKindIsModelled(w, r, "C04", map[string]bool{"LengthFieldAttribute": true})
 		wireModelFrame(w, r, "C04", frameWire, frameLength, nil, "a generator rewrites the length link / the kind of a field in the shared model: the targets generated after it lose or misplace the back-patch")
+		metadataByTypeNotByName(w, r, "C04")
 		wireAssumptions(r)
 	})
 	register("C05", "Match dispatch: (expansion) every matchPair child and every key of a key list yields one pair, in source order, with the pair's packet; (table) each language's dispatch emitter ranges over the pair list and emits text depending on both the key and the packet of the loop element; "+
@@ -333,6 +335,7 @@ func init() {
 		// round 9: the checksum declared inside an inline object is that object's own - a by-name lookup that replaces the inline
 		// packet by a declared packet of the same name swaps its calculated field (algorithm, width) for the other packet's
 		inlineObjectKeepsItsPacket(w, r, "C06")
+		metadataByTypeNotByName(w, r, "C06")
 		wireModelFrame(w, r, "C06", frameWire, frameCheckSum, nil, "a generator rewrites the checksum attribute / the kind of a field in the shared model: the targets generated after it no longer calculate the checksum the DSL declares")
 		wireOrder(wc, r, "C06", "enc")
 		wireOneByteEndian(w, wc, r, "C06")
@@ -356,6 +359,9 @@ func init() {
 		wireEmitOnceKeys(w, wc, r, "C15")
 		c15HelpersDefinedFirst(w, wc, r)
 		wireTemplateTaint(w, wc, r, "C15", []string{"lua"})
+		// round 9: every declared packet gets its dissector routine - none is skipped for what it contains (the routines of the packets
+		// that refer to an empty packet still call it)
+		r.refile("C07/every-packet", "C15/every-packet", func(sr *Report) { c07Packets(w, wc, sr) }, func(o Obligation) bool { return strings.HasPrefix(strings.TrimPrefix(o.Key, o.Rule+" "), "lua") })
 		wireBracketBalance(w, wc, r, "C15", map[string]bool{"code": true, "test": true, "only-lua": true})
 		wireLuaSizes(wc, r)
 		wireTables(w, r, "C15")
